@@ -5563,6 +5563,10 @@ class Scen:
         for i in indices:
             self.ambset.sup_constr[i] = tuple(args)
 
+        self.ambset.update = True
+        self.ambset.model.pupdate = True
+        self.ambset.model.dupdate = True
+
     def exptset(self, *args):
         """
         Specify the uncertainty set of the expected values of random
@@ -5596,6 +5600,10 @@ class Scen:
         else:
             indices = self.series
         self.ambset.exp_constr_indices.append(list(indices))
+
+        self.ambset.update = True
+        self.ambset.model.pupdate = True
+        self.ambset.model.dupdate = True
 
 
 class ScenLoc:
